@@ -7,7 +7,14 @@ import pv, models
 def run(c, query, module, tag, what, n_models, partitions=({"mode": "default"}, {"mode": "ignore"}), seed_offset=77):
     """c: pv.Check. Builds n_models complex models x partitions, runs `query` in the cplx harness, validates the events with `module`."""
     rng = random.Random(c.seed + seed_offset)
-    exe = pv.harness("cplx", "pv_driver")
+    try:
+        exe = pv.harness("cplx", "pv_driver")
+    except SystemExit:
+        # the tree builds with real matrix elements (the check got this far) but not with POMEROL_COMPLEX_MATRIX_ELEMENTS=ON: the property is
+        # decided on the real build alone and the fact is recorded (a tree that does not build at all makes the check exit 2 earlier)
+        c.notes.append("complex build of this tree fails to compile: complex-build tier skipped")
+        c.extra["complex_build"] = "does not compile"
+        return
     scen = []
     for m in models.complex_models(rng, n_models):
         for part in partitions:
